@@ -1028,14 +1028,17 @@ class TrigInfo:
         """Stop this trigger task."""
 
         if self.task:
-            if self.state_trig_ident:
-                State.notify_del(self.state_trig_ident, self.notify_q)
-            if self.event_trigger is not None:
-                Event.notify_del(self.event_trigger[0], self.notify_q)
-            if self.mqtt_trigger is not None:
-                Mqtt.notify_del(self.mqtt_trigger[0], self.notify_q)
-            if self.webhook_trigger is not None:
-                Webhook.notify_del(self.webhook_trigger[0], self.notify_q)
+            try:
+                if self.state_trig_ident:
+                    State.notify_del(self.state_trig_ident, self.notify_q)
+                if self.event_trigger is not None:
+                    Event.notify_del(self.event_trigger[0], self.notify_q)
+                if self.mqtt_trigger is not None:
+                    Mqtt.notify_del(self.mqtt_trigger[0], self.notify_q)
+                if self.webhook_trigger is not None:
+                    Webhook.notify_del(self.webhook_trigger[0], self.notify_q)
+            except Exception as exc:
+                _LOGGER.error("trigger %s: unsubscribe failed while stopping: %s", self.name, exc)
             if self.task:
                 Function.reaper_cancel(self.task)
                 self.task = None
